@@ -28,6 +28,19 @@ Section C07.
       handling ([compute_available_fixtures], [find_module_file]) *)
   Definition K_closed_file (s : index) (closed : list path) : bool :=
     existsb (fun p => negb (in_cache s p)) closed.
+  (** ... narrowed to what the finding is about: a moved answer is inside the class when the
+      closed file is not on disk (its text is gone for good), or when the query is the
+      per-file view (the only walker that asks file_cache before following a conftest's
+      imports); go-to-definition, references, imported names of an ON-DISK file must not move *)
+  Definition closed_off_disk (s : index) (closed : list path) : bool :=
+    existsb (fun p => negb (in_cache s p) && negb (disk_file dk p)) closed.
+  Definition is_view_query (q : aq) : bool := match q with AQAvail _ => true | _ => false end.
+  Fixpoint moved_inside (s : index) (closed : list path) (qs : list aq) (a b : list ans) : bool :=
+    match qs, a, b with
+    | q :: qs', x :: a', y :: b' =>
+        (ans_eqb x y || is_view_query q || closed_off_disk s closed) && moved_inside s closed qs' a' b'
+    | _, _, _ => true
+    end.
 
   (** re-analysing a document moves its definitions to the end of the per-name
       registration order; a name that reaches some file through a conftest import is
@@ -56,7 +69,7 @@ Section C07.
         let '(m, s') := answer_all7 s qs in
         let c := bit (negb (list_eqb ans_eqb m a)) 1
                  + bit (negb (list_eqb ans_eqb a b)) 2
-                 + bit (K_closed_file s closed) 16
+                 + bit (K_closed_file s closed && moved_inside s closed qs a b) 16
                  + bit (K_order_sensitive_import s) 32 in
         (if c =? 0 then [] else [(i, c)]) ++ run_case7 s' closed (i + 1) r
     end.
